@@ -26,6 +26,7 @@ class St:
     """Engine state (one per process)."""
     mode = "REAL"
     explorer = None
+    facts = {}         # decl name -> {term id: axiom} facts about uninterpreted applications (e.g. exp(x) > 0)
     sem = {}           # var name -> semantic tuple for concrete evaluation ('sqrt', arg) ...
     defs = {}          # var name -> (list of z3 axioms, list of z3 terms the axioms mention)
     keys = {}          # canonical key -> Sym  (sqrt / pow / exp sharing)
@@ -33,6 +34,7 @@ class St:
     float_evals = 0    # concrete irrational evaluations done in floating point
     fork_div = False   # fork scalar division on a zero divisor (Python float semantics)
     pow_mode = "alg"   # 'alg' algebraic powers, 'uf' uninterpreted power functions
+    pow_uf_for = set() # exponents (Fractions) that are always uninterpreted, whatever pow_mode says
     fresh = 0
     notes = set()
     snap_literals = False  # read float literals such as 0.4 at their decimal value 2/5
@@ -44,11 +46,13 @@ class St:
         cls.explorer = None
         cls.defs = {}
         cls.sem = {}
+        cls.facts = {}
         cls.keys = {}
         cls.absorbed = 0
         cls.float_evals = 0
         cls.fork_div = False
         cls.pow_mode = "alg"
+        cls.pow_uf_for = set()
         cls.fresh = 0
         cls.notes = set()
         cls.absorb_eps = Fr(3, 2 * 10 ** 10)
@@ -670,9 +674,10 @@ def rat_pow(x, n):
         key = ("pow", arg.sexpr(), str(n))
     St.notes.add("rational powers: base assumed > 0")
     if key not in St.keys:
-        if St.pow_mode == "uf":
+        if St.pow_mode == "uf" or n in St.pow_uf_for:
             f = uf("pow_%s_%d" % (("m%d" % -p) if p < 0 else str(p), q), 1)
             St.keys[key] = f(arg)
+            add_fact(St.keys[key], St.keys[key] > 0)
         else:
             v = z3.Real(_hname("pw", key))
             ax = [v > 0]
@@ -704,10 +709,12 @@ def sym_exp(x):
             key = ("rexp", str(x.re))
             if key not in St.keys:
                 St.keys[key] = uf("rexp", 1)(z(x.re))
-                St.defs.setdefault("rexp", ([], []))
+                add_fact(St.keys[key], St.keys[key] > 0)
             mag = Sym(St.keys[key])
         else:
-            mag = Sym(uf("rexp", 1)(canon(x.re)))
+            app = uf("rexp", 1)(canon(x.re))
+            add_fact(app, app > 0)
+            mag = Sym(app)
     ph = None
     if not is_zero(x.im):
         if St.mode == "EUF":
@@ -782,6 +789,25 @@ def sym_log10(x):
 
 
 # ------------------------------------------------------------------ axioms in the cone of influence
+def add_fact(app, axiom):
+    """a fact about an uninterpreted application, included in every query that mentions its function"""
+    St.facts.setdefault(app.decl().name(), {})[app.get_id()] = axiom
+
+
+def _decls(t, acc):
+    seen = set()
+    stack = [t]
+    while stack:
+        e = stack.pop()
+        i = e.get_id()
+        if i in seen:
+            continue
+        seen.add(i)
+        if z3.is_app(e) and e.num_args() > 0 and e.decl().kind() == z3.Z3_OP_UNINTERPRETED:
+            acc.setdefault(e.decl().name(), set()).add(i)
+        stack.extend(e.children())
+
+
 def _consts(t, acc):
     seen = set()
     stack = [t]
@@ -827,6 +853,18 @@ def axioms_for(terms):
             more = set()
             _consts(dep, more)
             work.extend(more - done)
+    # facts about the uninterpreted applications that occur in the query (terms and collected axioms)
+    if St.facts:
+        occ = {}
+        for t in list(terms) + out:
+            if isinstance(t, z3.ExprRef):
+                _decls(t, occ)
+        for name, ids in occ.items():
+            fs = St.facts.get(name)
+            if fs:
+                for i in ids:
+                    if i in fs:
+                        out.append(fs[i])
     return out
 
 
